@@ -205,3 +205,8 @@ def replay(blob):
         res.violation("c20.hash", "equal_but_hash_differs", "%r %r" % (a, b), {}, blob)
     behaviour(d, cachemod, a, b, exp, res, blob, fa, fb)
     return res
+
+
+# thorough tier only: the repository's own test suite, run under the invariant monitors of vlib/suite_monitors.py
+from . import _suite  # noqa: E402
+_suite.attach(globals(), "c20.", "suite.c20.identity", 700)
